@@ -287,10 +287,12 @@ func (fc *FnCtx) execUnOp(st *State, x *ssa.UnOp) {
 		v := fc.loadAt(st, addr, et)
 		if addr.Local == nil && v.SV == nil {
 			// name the loaded value and assert type invariants
-			if needsInv(ti.sortOf(et), et) {
+			{
 				c := fc.q.freshConst("ld_"+x.Name(), ti.sortOf(et))
 				fc.q.assert(implies(st.reach, eq(c, v.T)))
-				fc.typeInv(st, c, et)
+				if needsInv(ti.sortOf(et), et) {
+					fc.typeInv(st, c, et)
+				}
 				v.T = c
 			}
 			if g, ok := x.X.(*ssa.Global); !ok || g == nil {
